@@ -4,6 +4,9 @@ import CelmaVerif.Lemmas.ParseFaithful
 import CelmaVerif.Lemmas.ParseRefuse
 import CelmaVerif.Lemmas.ParseSpells
 import CelmaVerif.Lemmas.RulesExample
+import CelmaVerif.Lemmas.SourcesFaithful
+import CelmaVerif.Lemmas.ParseRefuseWide
+import CelmaVerif.Lemmas.SourcesSound
 /-
   C02 — no command line that breaks a declared rule is silently accepted, at the level of argument
   vectors.  Three layers are composed:
@@ -205,5 +208,261 @@ example (hf : HState) :
     ⟨none, "nu".toList⟩ 1 argN (by decide) (by decide) (by rfl) (by rfl) (by rfl) (Or.inl rfl) hf
 
 end Examples
+
+/-! ## Second audit follow-up: argument file and environment value, wide refusal forms, the grammar as a function
+
+  Everything above is stated for an evaluation without sources (`Sources = {}`).  The theorems below are
+  stated for `evalArguments` with ANY `Sources` (argument file lines, environment value — absent or
+  present) and contain the command-line-only statements as the case `src = {}`. -/
+
+/-- **Parse faithfulness with sources.**  If evaluating `prog :: ws` with an argument file and / or an
+    environment value returns normally, then — nothing being assumed about the file — its lines, read
+    one after the other by the declarative grammar (`FileSpellsPlus`: comment and empty lines spell
+    nothing; every other line is split by `splitString` and read as a line of the command-line grammar
+    `SP`, from the last-argument marker and `!` flag the line before left; each line has its own
+    parser: a first word `!`/`(`/`)` is a value, "behind `--`" ends with the line), then the words of the
+    environment value, then `ws` spell exactly the uses the evaluation logged, in this order.  A reader
+    that skipped a word with an unknown key, dropped a line it could not evaluate, or invented a value
+    would violate this theorem (there would be no derivation for the file). -/
+theorem C02_parse_faithful_sources (cfg : Cfg) (inits : List DVal) (src : Sources) (prog : Word) (ws : List Word)
+    (hf : HState) (he : evalArguments cfg (cfg.initState inits) src (prog :: ws) = .ok hf) :
+    ∃ usF usE usA lF iF lE iE lA iA,
+      FileSrcSpellsPlus cfg none false usF src.file lF iF ∧
+      EnvSrcSpellsPlus cfg lF iF usE src.env lE iE ∧
+      LineSpells cfg lE iE usA ws lA iA ∧
+      hf.uses = usF ++ usE ++ usA := by
+  obtain ⟨usF, usE, usA, lF, iF, lE, iE, lA, iA, sF, sE, sA, hu⟩ :=
+    sources_faithful cfg (cfg.initState inits) hf src prog ws he
+  exact ⟨usF, usE, usA, lF, iF, lE, iE, lA, iA, sF, sE, sA, by rw [hu]; rfl⟩
+
+/-- **Soundness of acceptance with sources** (PARTIAL: every rule of `Obeys` except (1) the
+    cardinalities — a value that comes from a source is deliberately not counted, C07 "can be
+    overridden", so "no argument is used more often than its cardinality allows" does not hold of
+    `usF ++ usE ++ usA`; what holds for the values given on argv is not stated here — and (2) the value
+    constraints differ / disjoint, whose invariant is only proved for command-line mode).
+    For every well-formed configuration, EVERY argument file, environment value and argv: if the
+    evaluation returns normally, the uses it logged are spelled by the sources and argv
+    (`C02_parse_faithful_sources`) and obey: every mandatory argument is present, every value converts
+    and passes all attached checks, no key occurrence after an excluding argument, every requirement
+    met by a later key occurrence, every all-of / any-of / one-of constraint met. -/
+theorem C02_sound_sources_partial (cfg : Cfg) (wf : cfg.WellFormed) (inits : List DVal)
+    (hin : cfg.args.length ≤ inits.length) (src : Sources) (prog : Word) (ws : List Word) (hf : HState)
+    (he : evalArguments cfg (cfg.initState inits) src (prog :: ws) = .ok hf) :
+    ∃ usF usE usA lF iF lE iE lA iA,
+      FileSrcSpellsPlus cfg none false usF src.file lF iF ∧
+      EnvSrcSpellsPlus cfg lF iF usE src.env lE iE ∧
+      LineSpells cfg lE iE usA ws lA iA ∧
+      hf.uses = usF ++ usE ++ usA ∧
+      ObeysFromSources cfg inits (usF ++ usE ++ usA) := by
+  obtain ⟨usF, usE, usA, lF, iF, lE, iE, lA, iA, sF, sE, sA, hu⟩ :=
+    C02_parse_faithful_sources cfg inits src prog ws hf he
+  exact ⟨usF, usE, usA, lF, iF, lE, iE, lA, iA, sF, sE, sA, hu, hu ▸ sources_rules_sound wf hin he⟩
+
+/-- **Every key is known — short keys, every source, any position in the word.**  Take any line of
+    words the evaluation reads (`InputLine`: argv, the words of a file line that is not skipped, the
+    words of the environment value).  If it contains a word `-g…c…` — behind words none of which IS a
+    separator (`IsSep`: `--`, `-a-`; `--out=-` is none), the key characters `g` in front of `c` not
+    belonging to an argument that requires a value (then the rest of the word would be that value) —
+    whose key character `c` does not resolve to an argument, the evaluation never returns normally. -/
+theorem C02_unknown_short_key_refused_wide (cfg : Cfg) (inits : List DVal) (src : Sources) (prog : Word)
+    (ws line pre post : List Word) (g : Word) (c : Char) (t : Word) (hl : InputLine src ws line)
+    (hline : line = pre ++ ('-' :: (g ++ c :: t)) :: post) (hpre : ∀ u ∈ pre, IsSep u = false) (hg : GroupOk cfg g)
+    (hc : c ≠ '-') (hunk : ∀ i d, findArg cfg.abbr cfg.table (Key.ofChar c) ≠ .ok (some (i, d))) (hf : HState) :
+    evalArguments cfg (cfg.initState inits) src (prog :: ws) ≠ .ok hf := by
+  intro he
+  obtain ⟨l, inv, us, sp⟩ := input_line_spelled cfg _ hf src prog ws line he hl
+  rw [hline] at sp
+  exact line_unknown_short cfg l inv pre post g c t us hpre hg hc hunk sp
+
+/-- … in particular when no defined argument has the short key `c` -/
+theorem C02_undefined_short_key_refused_wide (cfg : Cfg) (inits : List DVal) (src : Sources) (prog : Word)
+    (ws line pre post : List Word) (g : Word) (c : Char) (t : Word) (hl : InputLine src ws line)
+    (hline : line = pre ++ ('-' :: (g ++ c :: t)) :: post) (hpre : ∀ u ∈ pre, IsSep u = false) (hg : GroupOk cfg g)
+    (hc : c ≠ '-') (hc0 : c ≠ '\x00') (hno : ∀ d ∈ cfg.args, d.key.short ≠ some c) (hf : HState) :
+    evalArguments cfg (cfg.initState inits) src (prog :: ws) ≠ .ok hf := by
+  apply C02_unknown_short_key_refused_wide cfg inits src prog ws line pre post g c t hl hline hpre hg hc
+  intro i d h
+  rw [findArg_short_unknown cfg c hc0 hno] at h
+  cases h
+
+/-- **Every key is known — long names, every source.**  A word `--name[=v]`, or a name behind a dash
+    inside a group of short keys (`-ab-name`), whose name is no key specification or does not resolve. -/
+theorem C02_unknown_long_key_refused_wide (cfg : Cfg) (inits : List DVal) (src : Sources) (prog : Word)
+    (ws line pre post : List Word) (g : Word) (b : Char) (r : Word) (hl : InputLine src ws line)
+    (hline : line = pre ++ ('-' :: (g ++ '-' :: b :: r)) :: post) (hpre : ∀ u ∈ pre, IsSep u = false)
+    (hg : GroupOk cfg g)
+    (hunk : ∀ k i d, wordKey ((b :: r).takeWhile (· != '=')) = .ok k → findArg cfg.abbr cfg.table k ≠ .ok (some (i, d)))
+    (hf : HState) : evalArguments cfg (cfg.initState inits) src (prog :: ws) ≠ .ok hf := by
+  intro he
+  obtain ⟨l, inv, us, sp⟩ := input_line_spelled cfg _ hf src prog ws line he hl
+  rw [hline] at sp
+  exact line_unknown_long cfg l inv pre post g b r us hpre hg hunk sp
+
+/-- … declaratively: `--name` (a key word: not empty, no leading dash, no blank, no comma, no `=`) such
+    that NO defined long key begins with `name` (so it is neither a long key nor an abbreviation of
+    one) is refused — with abbreviations on or off, from every source. -/
+theorem C02_undefined_long_key_refused (cfg : Cfg) (inits : List DVal) (src : Sources) (prog : Word)
+    (ws line pre post : List Word) (g : Word) (b : Char) (r : Word) (hl : InputLine src ws line)
+    (hline : line = pre ++ ('-' :: (g ++ '-' :: b :: r)) :: post) (hpre : ∀ u ∈ pre, IsSep u = false)
+    (hg : GroupOk cfg g) (hne : '=' ∉ b :: r) (hw : KeyWord (b :: r))
+    (hno : ∀ d ∈ cfg.args, ¬ (b :: r) <+: d.key.long) (hf : HState) :
+    evalArguments cfg (cfg.initState inits) src (prog :: ws) ≠ .ok hf :=
+  C02_unknown_long_key_refused_wide cfg inits src prog ws line pre post g b r hl hline hpre hg
+    (long_name_unresolved cfg b r hne hw hno) hf
+
+/-- **Every argument that needs a value has one — short key, every source.**  A required-value key `c`
+    that is the LAST character of its word (`-c`, or at the end of a group `-abc`) and is followed by
+    nothing, by a dashed word other than `--`, or by a lone `!`, `(`, `)`. -/
+theorem C02_missing_value_refused_short_wide (cfg : Cfg) (inits : List DVal) (src : Sources) (prog : Word)
+    (ws line pre post : List Word) (g : Word) (c : Char) (i : Nat) (d : ArgDef) (hl : InputLine src ws line)
+    (hline : line = pre ++ ('-' :: (g ++ [c])) :: post) (hpre : ∀ u ∈ pre, IsSep u = false) (hg : GroupOk cfg g)
+    (hc : c ≠ '-') (hr : findArg cfg.abbr cfg.table (Key.ofChar c) = .ok (some (i, d))) (hm : d.vmode = .required)
+    (hpost : NoValueWordW post) (hf : HState) :
+    evalArguments cfg (cfg.initState inits) src (prog :: ws) ≠ .ok hf := by
+  intro he
+  obtain ⟨l, inv, us, sp⟩ := input_line_spelled cfg _ hf src prog ws line he hl
+  rw [hline] at sp
+  exact line_missing_value_short cfg l inv pre post g c i d us hpre hg hc hr hm hpost sp
+
+/-- **… long name, every source.** -/
+theorem C02_missing_value_refused_long_wide (cfg : Cfg) (inits : List DVal) (src : Sources) (prog : Word)
+    (ws line pre post : List Word) (g : Word) (b : Char) (r : Word) (k : Key) (i : Nat) (d : ArgDef)
+    (hl : InputLine src ws line) (hline : line = pre ++ ('-' :: (g ++ '-' :: b :: r)) :: post)
+    (hpre : ∀ u ∈ pre, IsSep u = false) (hg : GroupOk cfg g) (hne : '=' ∉ b :: r)
+    (hk : wordKey (b :: r) = .ok k) (hr : findArg cfg.abbr cfg.table k = .ok (some (i, d)))
+    (hm : d.vmode = .required) (hpost : NoValueWordW post) (hf : HState) :
+    evalArguments cfg (cfg.initState inits) src (prog :: ws) ≠ .ok hf := by
+  intro he
+  obtain ⟨l, inv, us, sp⟩ := input_line_spelled cfg _ hf src prog ws line he hl
+  rw [hline] at sp
+  exact line_missing_value_long cfg l inv pre post g b r k i d us hpre hg hne hk hr hm hpost sp
+
+/-- **The grammar is a function of the words**: two derivations over the same words spell the same uses.
+    So in `C02_parse_faithful` / `C02_sound_words` the ghost log `hf.uses` is determined by `ws` alone. -/
+theorem C02_spelling_unambiguous (cfg : Cfg) (ws : List Word) (us us' : List Use)
+    (h : SpellsPlus cfg us ws) (h' : SpellsPlus cfg us' ws) : us = us' :=
+  SpellsPlus_functional h h'
+
+/-- **The word classifier of C05 is the grammar's tokenizer.**  `classifyWord` (Model/KeysCmdline.lean,
+    the hand classifier behind `C05_cmdline_exact`) and `cmdKey` agree with `nextTok` / `KeyTok` on the
+    two plain key words `-c` and `--name`: the element is the one announced, the reading stands behind
+    the word, and the key attached to the element is `cmdKey`'s. -/
+theorem C02_key_word_is_grammar_element (w : List Char) (cw : CmdWord) (f : Bool) (ws : List Word)
+    (h : classifyWord w = some cw) :
+    nextTok false (.bnd false f (w :: ws)) = .tok (tokOf cw) (.bnd false false ws) ∧
+    ∀ k, KeyTok (tokOf cw) k ↔ cmdKey cw = .ok k :=
+  ⟨classify_is_nextTok w cw f ws h, keyTok_tokOf cw⟩
+
+/-! ### judgement calls of the grammar, as machine-checked witnesses (each replayed on the real code:
+    corpus/progargs/grammar_quirks.ops)
+
+  `QuirkCfg`: `-f` flag, `-b,--beta` flag, `-n,--num` int, positional string argument (key `-`). -/
+
+namespace Quirk
+def cfg : Cfg :=
+  { args := [ { key := ⟨some 'f', []⟩, kind := .flag, vmode := .none, card := .max 1 },
+              { key := ⟨some 'b', "beta".toList⟩, kind := .flag, vmode := .none, card := .max 1 },
+              { key := ⟨some 'n', "num".toList⟩, kind := .int, vmode := .required, card := .max 1 },
+              { key := Key.pos, kind := .str, vmode := .required, card := .max 1 } ] }
+def inits : List DVal := [.flag false, .flag false, .int 0, .str []]
+def dests (r : Res HState) : Option (List DVal) := match r with | .ok h => some (h.args.map (·.dest)) | _ => none
+def run (ws : List String) : Option (List DVal) :=
+  dests (evalArguments cfg (cfg.initState inits) {} ("p".toList :: ws.map String.toList))
+def runFile (lines : List String) : Option (List DVal) :=
+  dests (evalArguments cfg (cfg.initState inits) { file := some (lines.map String.toList) } ["p".toList])
+end Quirk
+
+/-- (a) the FIRST word of a line is never a control character: `! -f` hands `!` to the positional
+    argument; a later `!` is the inversion word (accepted when no use follows: `-f !`) -/
+theorem C02_witness_first_word_is_value :
+    Quirk.run ["!", "-f"] = some [.flag true, .flag false, .int 0, .str "!".toList] ∧
+    Quirk.run ["-f", "!"] = some [.flag true, .flag false, .int 0, .str []] ∧
+    Quirk.run ["-f", "!", "-b"] = none := by decide +kernel
+
+/-- (b) a dash inside a group of short keys starts a long name, a dash that ends it is the separator:
+    `-f-b` = `-f --b` (an abbreviation of `--beta`), `-f- -b` = `-f -- -b` (`-b` is a positional value) -/
+theorem C02_witness_dash_in_group :
+    Quirk.run ["-f-b"] = some [.flag true, .flag true, .int 0, .str []] ∧
+    Quirk.run ["-f-", "-b"] = some [.flag true, .flag false, .int 0, .str "-b".toList] := by decide +kernel
+
+/-- (c) `--flag=value` on an argument that takes no value: the flag is set and `value` is read as a
+    separate value element — it goes to the positional argument when one is defined (accepted!), and
+    is refused otherwise.  No declared rule of C02 is broken (the abstract line "beta; positional x"
+    obeys every rule), but the text `--beta=x` does not reach the argument it names: judgement call,
+    see design_notes/parse.md "Judgement calls". -/
+theorem C02_witness_flag_eq_value_goes_to_positional :
+    Quirk.run ["--beta=x"] = some [.flag false, .flag true, .int 0, .str "x".toList] := by decide +kernel
+
+/-- each file line has its own parser: `--` on one line does not make the next line a value, and a key
+    at the end of a line does not take the next line as its value -/
+theorem C02_witness_file_lines_are_separate :
+    Quirk.runFile ["--", "-f"] = some [.flag true, .flag false, .int 0, .str []] ∧
+    Quirk.run ["--", "-f"] = some [.flag false, .flag false, .int 0, .str "-f".toList] ∧
+    Quirk.runFile ["-n", "5"] = none ∧
+    Quirk.runFile ["-n 5"] = some [.flag false, .flag false, .int 5, .str []] := by decide +kernel
+
+section ExamplesSources
+open CelmaVerif.ProgArgs.RulesExample
+
+/-- an accepted evaluation with a file (comment line, `-q`, `-n 5`) and an environment value (`-o f`):
+    `C02_sound_sources_partial` applies (non-vacuity of its hypotheses) -/
+example : ∃ hf, evalArguments RulesExample.cfg (RulesExample.cfg.initState RulesExample.inits)
+      { file := some ["# c".toList, "-q".toList, "-o f".toList], env := some "-n 5".toList } ["p".toList] = .ok hf ∧
+    ObeysFromSources RulesExample.cfg RulesExample.inits hf.uses := by
+  have hok : (evalArguments RulesExample.cfg (RulesExample.cfg.initState RulesExample.inits)
+      { file := some ["# c".toList, "-q".toList, "-o f".toList], env := some "-n 5".toList } ["p".toList]).isOk = true := by
+    decide +kernel
+  cases e : evalArguments RulesExample.cfg (RulesExample.cfg.initState RulesExample.inits)
+      { file := some ["# c".toList, "-q".toList, "-o f".toList], env := some "-n 5".toList } ["p".toList] with
+  | ok hf =>
+    obtain ⟨_, _, _, _, _, _, _, _, _, _, _, _, hu, ob⟩ := C02_sound_sources_partial _ cfg_wf _ (by decide) _ _ _ hf e
+    exact ⟨hf, rfl, hu ▸ ob⟩
+  | throw x => rw [e] at hok; simp [Res.isOk] at hok
+  | oob x => rw [e] at hok; simp [Res.isOk] at hok
+
+/-- file line `-q -x` (no argument has the short key `x`), for ANY other lines, environment value and
+    argv: refused — `C02_undefined_short_key_refused_wide` with `InputLine` = a file line -/
+example (before after : List Word) (env : Option Word) (ws : List Word) (hf : HState) :
+    evalArguments RulesExample.cfg (RulesExample.cfg.initState RulesExample.inits)
+      { file := some (before ++ "-q -x".toList :: after), env := env } ("p".toList :: ws) ≠ .ok hf :=
+  C02_undefined_short_key_refused_wide RulesExample.cfg RulesExample.inits _ "p".toList ws
+    ["-q".toList, "-x".toList] ["-q".toList] [] [] 'x' []
+    (Or.inr (Or.inl ⟨_, "-q -x".toList, rfl, by simp, by unfold SkippedLine; decide, by decide⟩))
+    rfl (by decide) (by intro x hx; cases hx) (by decide) (by decide) (by decide) hf
+
+/-- `-qx` on argv (`x` unknown behind the flag `q` in the same word) and `-q --out=- -x` (`--out=-` is
+    not a separator): refused by the wide form, not covered by the first-character form -/
+example (hf : HState) :
+    evalArguments RulesExample.cfg (RulesExample.cfg.initState RulesExample.inits) {} ["p".toList, "-qx".toList] ≠ .ok hf ∧
+    evalArguments RulesExample.cfg (RulesExample.cfg.initState RulesExample.inits) {}
+      ["p".toList, "-q".toList, "--out=-".toList, "-x".toList] ≠ .ok hf := by
+  have hq : GroupOk RulesExample.cfg ['q'] := by
+    intro x hx
+    simp only [List.mem_singleton] at hx
+    subst hx
+    refine ⟨by decide, ?_⟩
+    intro i d hr
+    have h3 : findArg RulesExample.cfg.abbr RulesExample.cfg.table (Key.ofChar 'q') =
+        .ok (some (3, RulesExample.cfg.args.getD 3 default)) := by rfl
+    unfold Resolves at hr
+    rw [h3] at hr
+    cases hr
+    decide
+  exact ⟨C02_undefined_short_key_refused_wide RulesExample.cfg RulesExample.inits {} "p".toList _
+      ["-qx".toList] [] [] ['q'] 'x' [] (Or.inl rfl) rfl (by decide) hq (by decide) (by decide) (by decide) hf,
+    C02_undefined_short_key_refused_wide RulesExample.cfg RulesExample.inits {} "p".toList _
+      ["-q".toList, "--out=-".toList, "-x".toList] ["-q".toList, "--out=-".toList] [] [] 'x' [] (Or.inl rfl) rfl
+      (by decide) (by intro x hx; cases hx) (by decide) (by decide) (by decide) hf⟩
+
+/-- environment value `-q --nosuch`: no long key begins with `nosuch` — refused declaratively -/
+example (ws : List Word) (hf : HState) :
+    evalArguments RulesExample.cfg (RulesExample.cfg.initState RulesExample.inits)
+      { env := some "-q --nosuch".toList } ("p".toList :: ws) ≠ .ok hf :=
+  C02_undefined_long_key_refused RulesExample.cfg RulesExample.inits _ "p".toList ws
+    ["-q".toList, "--nosuch".toList] ["-q".toList] [] [] 'n' "osuch".toList
+    (Or.inr (Or.inr ⟨_, rfl, by decide⟩)) rfl (by decide) (by intro x hx; cases hx) (by decide) (by decide)
+    (by decide) hf
+
+end ExamplesSources
 
 end CelmaVerif.Props.C02b
